@@ -543,7 +543,10 @@ class BlockProcessor:
         self.tx_hashes.append(b''.join(tx_hashes))
         self.db.history.add_unflushed(hashXs_by_tx, state.tx_count)
         self.db.tx_counts.append(tx_num)
-        if block.height >= self.db.min_undo_height(self.daemon.cached_height()):
+        # Once caught up always keep undo info: whilst a reorg is being handled the daemon's
+        # height can run ahead, and a block of the abandoned branch indexed in the meantime
+        # must still be undoable (and must replace any stale undo info at its height).
+        if self.caught_up or block.height >= self.db.min_undo_height(self.daemon.cached_height()):
             self.undo_infos.append((undo_info, block.height))
         self.headers.append(block.header)
 
